@@ -60,4 +60,17 @@ Fixpoint rounds (n : nat) (c : cache) (k : bytes) : bool :=
   | O => false
   | S n' => let '(ok, c') := round c k in if ok then true else rounds n' c' k
   end.
+(* a request through RegionRequestSender: SendReqCtx locates once and then makes one or more attempts on the same cached
+   entry (an attempt after a NotLeader switch hits the same entry again, so re-locating it is a no-op: [find_hit]); how
+   many attempts each call makes is the sender's choice — an oracle [inner : nat -> nat] (call number -> extra attempts) *)
+Fixpoint attempts (n : nat) (c : cache) (k : bytes) : bool * cache :=
+  match round c k with
+  | (true, c') => (true, c')
+  | (false, c') => match n with O => (false, c') | S n' => attempts n' c' k end
+  end.
+Fixpoint srounds (inner : nat -> nat) (n i : nat) (c : cache) (k : bytes) : bool :=
+  match n with
+  | O => false
+  | S n' => let '(ok, c') := attempts (inner i) c k in if ok then true else srounds inner n' (S i) c' k
+  end.
 End Round.
